@@ -596,9 +596,18 @@ pub fn ext_alphabet() -> Vec<Ext> {
 // expected canonical dump (must match h_cql::decode::actual dump line for line)
 // ---------------------------------------------------------------------------------------------
 
+pub const DUMP_MAX_COLS: usize = 256;
+/// names longer than 64 bytes are shown as their first 16 characters and their length
+pub fn abbrev(s: &str) -> String {
+    if s.len() <= 64 { s.to_string() } else { format!("{}..[{} bytes]", s.chars().take(16).collect::<String>(), s.len()) }
+}
+
 pub fn dump_colspecs(cols: &[ColSpec], out: &mut String) {
-    for c in cols {
-        out.push_str(&format!("  col {}.{}.{} : {}\n", c.ks, c.table, c.name, dump_type_expect(&c.ty)));
+    for c in cols.iter().take(DUMP_MAX_COLS) {
+        out.push_str(&format!("  col {}.{}.{} : {}\n", abbrev(&c.ks), abbrev(&c.table), abbrev(&c.name), dump_type_expect(&c.ty)));
+    }
+    if cols.len() > DUMP_MAX_COLS {
+        out.push_str(&format!("  ... {} more columns\n", cols.len() - DUMP_MAX_COLS));
     }
 }
 
@@ -1007,6 +1016,45 @@ pub fn custom_type_body(class: &[u8], in_prepared: bool) -> Vec<u8> {
         w.extend_from_slice(&0i32.to_be_bytes());
     }
     w
+}
+
+/// A Rows result with one column of custom class `class` and one single-cell row per entry of `cells`
+pub fn custom_type_rows_body(class: &[u8], cells: &[Option<Vec<u8>>]) -> Vec<u8> {
+    let mut w = custom_type_body(class, false);
+    w.truncate(w.len() - 4);
+    w.extend_from_slice(&(cells.len() as i32).to_be_bytes());
+    for c in cells {
+        cell(&mut w, c.as_deref());
+    }
+    w
+}
+
+/// `VectorType(VectorType(...(<leaf>, d)..., d), d)` nested `depth` times
+pub fn nested_vector_class(leaf: &str, depth: usize, dim: &str) -> String {
+    let mut s = String::new();
+    for _ in 0..depth {
+        s.push_str("VectorType(");
+    }
+    s.push_str(leaf);
+    for _ in 0..depth {
+        s.push_str(&format!(", {dim})"));
+    }
+    s
+}
+
+/// metadata with `ncols` int columns whose keyspace / table names are `name_len` bytes long, with a global
+/// table spec or one per column; as a Rows result (borrowed metadata path) or a Prepared result (owned path, twice)
+pub fn table_spec_item(ncols: usize, name_len: usize, global: bool, prepared: bool) -> Response {
+    let ks = "k".repeat(name_len);
+    let tb = "t".repeat(name_len);
+    let cols: Vec<ColSpec> = (0..ncols).map(|_| ColSpec { ks: ks.clone(), table: tb.clone(), name: String::new(), ty: Ty::Native(native::INT) }).collect();
+    let g = global.then(|| (ks.clone(), tb.clone()));
+    let m = RowsMeta { global: g.clone(), paging_state: None, no_metadata: false, new_metadata_id: None, cols: cols.clone() };
+    if prepared {
+        Response::Result(ResultBody::Prepared(Prepared { id: vec![1], result_metadata_id: vec![], global: g, pk_indexes: vec![], cols, result: m }))
+    } else {
+        Response::Result(ResultBody::Rows(Rows { meta: m, rows: vec![] }))
+    }
 }
 
 /// Class-string templates with one hole (`{}`): every identifier / hex / number position of the TypeParser grammar.
